@@ -55,6 +55,11 @@ def search(chk, broken):
         calc = pbc.Calculator(_config=cfg)
         full = pbc.interface_config.create_interface_config(cfg)
         shot, _ = sg.gen_shot(pbc, rng, flat=True, allow_cant=False, max_look=59.0, table=getattr(pbc, rng.choice(sg.TABLE_NAMES)))
+        if rng.random() < 0.35:
+            # "whatever zero the weapon stored before": a large stale zero (a slow projectile zeroed far away, a hand-entered value)
+            shot.weapon.zero_elevation = U.Degree(rng.choice([rng.uniform(5, 20), rng.uniform(-10, 20), 12.0]))
+            if rng.random() < 0.5:
+                shot.look_angle = U.Degree(rng.choice([-1, 1]) * rng.uniform(40, 59))
         look = shot.look_angle >> U.Radian
         D = rng.choice([100.0, 300.0, 600.0, 1500.0, rng.uniform(15, 3000)])   # look-distance, ft
         X = D * math.cos(look)
